@@ -61,6 +61,15 @@ VARIANT_PAIRS = [
     ('api/a54_literals_bytes.py', 'api/a53_literals_str.py'),
 ]
 
+# an earlier module that pushes the interpreter to a limit (int/str conversion, recursion, warnings) followed by a
+# module whose result depends on that limit
+STATE_PAIRS = [
+    ('api/a55_huge_hex_int.py', 'api/a56_big_product.py'),
+    ('api/a55_huge_hex_int.py', 'api/a57_huge_decimal_int.py'),
+    ('api/a55_huge_hex_int.py', 'api/a58_huge_power.py'),
+    ('api/a58_huge_power.py', 'api/a56_big_product.py'),
+]
+
 NAME_POOL = [
     'helper', 'other', 'foo', 'bar', 'value', 'result', 'item', 'T', 'U', 'K', 'Item', 'Rest', 'Params',
     'CONSTANT_VALUE', 'another_global', 'public_function', 'PublicClass', 'handler', 'self', 'cls', 'args',
